@@ -1372,6 +1372,15 @@ class C19(Family):
                     cands.append((feat, "step %d (%s) changed attribute %r of live %s %r (%s%s): %s -> %s ; step = %s"
                                   % (idx, opname, attr, okind, s, role, "" if argn is None else " " + argn, v0, v1,
                                      json.dumps(st)[:300])))
+                # when the result IS one of the operands (listed or not), containers that hold that
+                # operand (a caller's list / dict of systems) change with it: a consequence, not a
+                # second defect
+                same = [f for f, d in cands if f.get("kind") == "result-is-operand"]
+                if same:
+                    cands = [(f, d) for f, d in cands
+                             if not (f.get("kind") == "result-shares-state"
+                                     and f.get("operand") in ("list", "dict", "tuple")
+                                     and any(f.get("op") == g.get("op") for g in same))] or cands
                 feat, detail = next(((f, d) for f, d in cands if match_known(self.known(), f) is None), cands[0])
                 return Verdict(VIOLATES, detail, feat)
             # 2. no library call changes the configuration
